@@ -31,13 +31,17 @@ def assocD [DecidableEq α] (m : List (α × α)) (x : α) : α := ((m.find? (·
 
 def Key.mapName (m : List (String × String)) (k : Key) : Key := { path := k.path, name := assocD m k.name }
 
+/-- one enclosing circuit-operation instance: (position path of the circuit operation in the syntax tree, iteration
+index, number of scopes this instance adds to the key paths of its body: its parent path plus its repetition id) -/
+abbrev Stamp := List Nat × Nat × Nat
+
 /-- a condition before scoping, with the scopes and the chain of circuit-operation instances enclosing the place it was
 written at (a condition put on a whole sub-circuit is written outside of it) -/
 structure RawCond where
   key : Key
   index : Int
   scope : List String := []
-  stamps : List (List Nat × Nat) := []
+  stamps : List Stamp := []
   deriving DecidableEq, Repr
 
 /-- an operation of the unrolled body before scoping: conditions still carry the scope they were written in -/
@@ -48,7 +52,7 @@ structure RawOp where
   conds : List RawCond
   inverted : Bool
   scope : List String          -- path of the enclosing scopes, outermost first
-  stamps : List (List Nat × Nat) := []   -- (position path of an enclosing loop, iteration index)
+  stamps : List Stamp := []   -- chain of enclosing instances, outermost first
   deriving DecidableEq, Repr
 
 mutual
@@ -76,8 +80,9 @@ mutual
                    inverted := o.inverted != invert })
         let hasMeas := body.flatten.any (nodeHasMeas fuel)
         let inScope (extra : List String) (iter : Nat) : List RawOp :=
-          mapped.map (fun o => { o with scope := parentPath ++ extra ++ o.scope, stamps := (pos, iter) :: o.stamps,
-                                        conds := o.conds.map (fun c => { c with scope := parentPath ++ extra ++ c.scope, stamps := (pos, iter) :: c.stamps }) })
+          let st : Stamp := (pos, iter, (parentPath ++ extra).length)
+          mapped.map (fun o => { o with scope := parentPath ++ extra ++ o.scope, stamps := st :: o.stamps,
+                                        conds := o.conds.map (fun c => { c with scope := parentPath ++ extra ++ c.scope, stamps := st :: c.stamps }) })
         match repIds with
         | some ids => if hasMeas then (ids.zipIdx).flatMap (fun (r, k) => inScope [r] k)
                       else (List.range reps.natAbs).flatMap (fun k => inScope [] k)
@@ -104,20 +109,34 @@ def bindCond (scope : List String) (measured : List Key) (k : Key) : Key :=
   let cands := (List.range (scope.length + 1)).map (fun i => k.prefixed (scope.take (scope.length - i)))
   (cands.find? (fun c => measured.contains c)).getD k
 
-/-- Lexical visibility: a recorded measurement can be bound by a condition when it sits directly in the body of a
-circuit-operation instance (loop position and iteration) that encloses the condition, or at top level: its chain of
-instances (outermost first) is a prefix of the condition's.  Measurements made inside sibling sub-circuits, or by
-another iteration of an enclosing loop, are not candidates (`CircuitOperation._with_rescoped_keys_` drops them on
-purpose, and a loop body is scoped once per iteration). -/
-def visible (m o : List (List Nat × Nat)) : Bool := m.isPrefixOf o
+/-- walk down the two instance chains while they agree, adding up the scopes of the shared instances in `acc` -/
+def visibleAux (len : Nat) : Nat → List Stamp → List Stamp → Bool
+  | _, _, [] => true                                   -- the condition stands in the body of the shared instance
+  | acc, [], _ :: _ => decide (len ≤ acc)              -- measured directly in an enclosing body
+  | acc, a :: as, b :: bs =>
+    if a = b then visibleAux len (acc + a.2.2) as bs
+    else if a.1 = b.1 then false                       -- another iteration of the same loop
+    else decide (len ≤ acc)                            -- inside a sibling sub-circuit
+
+/-- Lexical visibility, as `Circuit._with_rescoped_keys_` and `CircuitOperation._with_rescoped_keys_` implement it.
+Walking through a body, every measurement key recorded by an earlier moment (directly, or anywhere inside a sub-circuit
+of that moment) is a binding candidate for what follows *in that body*.  Candidates are handed down into a
+sub-circuit only when their path is not longer than the path of the body the sub-circuit stands in
+(`len(k.path) <= len(path)`), and the body of a loop is scoped once per iteration from what was recorded outside the
+loop.  So a measurement with instance chain `m` is visible to a condition written in instance chain `c` when the condition
+stands in the body of the deepest instance the two share, or when the chains part at two different sub-circuits and the
+measurement's key path is no longer than the scope path of the shared instance.  That admits measurements made directly
+in an enclosing body and measurements made inside earlier sibling sub-circuits which add no scope of their own; it
+excludes measurements of siblings that have repetition ids or a parent path, and the other iterations of a loop. -/
+def visible (mkey : Key) (m c : List Stamp) : Bool := visibleAux mkey.path.length 0 m c
 
 /-- scoping pass over the raw stream in execution order, binding among the visible recorded measurements -/
-def scopePassS : List (Key × List (List Nat × Nat)) → List RawOp → List FlatOp
+def scopePassS : List (Key × List Stamp) → List RawOp → List FlatOp
   | _, [] => []
   | measured, o :: os =>
     let mk := o.mkey.map (fun k => k.prefixed o.scope)
     let conds := o.conds.map (fun c =>
-      (bindCond c.scope ((measured.filter (fun m => visible m.2 c.stamps)).map (·.1)) c.key, c.index))
+      (bindCond c.scope ((measured.filter (fun m => visible m.1 m.2 c.stamps)).map (·.1)) c.key, c.index))
     { id := o.id, qubits := o.qubits, mkey := mk, conds := conds, inverted := o.inverted }
       :: scopePassS (measured ++ (mk.toList.map (fun k => (k, o.stamps)))) os
 
